@@ -25,15 +25,15 @@ const (
 
 // Prog is one loaded, type-checked and SSA-built configuration of /repo.
 type Prog struct {
-	Tags   string
-	Fset   *token.FileSet
-	Pkgs   []*packages.Package
-	SSA    *ssa.Program
-	Slog   *ssa.Package
-	Times  *ssa.Package
-	Strs   *ssa.Package
-	byPath map[string]*ssa.Package
-	canon  map[string]types.Object // canonical anchor key -> renamed object of this tree
+	Tags    string
+	Fset    *token.FileSet
+	Pkgs    []*packages.Package
+	SSA     *ssa.Program
+	Slog    *ssa.Package
+	Times   *ssa.Package
+	Strs    *ssa.Package
+	byPath  map[string]*ssa.Package
+	canon   map[string]types.Object // canonical anchor key -> renamed object of this tree
 	callers map[*ssa.Function][]ssa.CallInstruction
 
 	cgCHA *callgraph.Graph
@@ -92,6 +92,7 @@ func Load(tags string, overlay map[string][]byte) (*Prog, error) {
 		}
 	}
 	resolveAliases(p)
+	resolveRoles(p)
 	return p, nil
 }
 
@@ -148,6 +149,13 @@ func (p *Prog) Method(pkg *ssa.Package, typ, name string) *ssa.Function {
 			return fn
 		}
 	}
+	if fn := p.methodDirect(pkg, tn, name); fn != nil {
+		return fn
+	}
+	return nil
+}
+
+func (p *Prog) methodDirect(pkg *ssa.Package, tn *types.TypeName, name string) *ssa.Function {
 	for _, t := range []types.Type{tn.Type(), types.NewPointer(tn.Type())} {
 		ms := p.SSA.MethodSets.MethodSet(t)
 		if sel := ms.Lookup(pkg.Pkg, name); sel != nil {
